@@ -48,7 +48,8 @@ def build_case(word, prog, kind, fee, lev, fast, emb, prog2=None):
         while len(w) % 3:
             w.append(progs.SHAPES['FLAT'])
     rows = S.make_candles(w, base + 20 * tick, tick)
-    cfg = {'type': kind, 'fee': fee, 'leverage': lev, 'balance': 100 * (base + 20 * tick) * unit * (3 if prog2 else 1)}
+    # leverage >= 50 stands for the isolated-margin configuration (liquidations and fills beyond the bankruptcy price happen there)
+    cfg = {'type': kind, 'fee': fee, 'leverage': lev, 'mode': 'isolated' if lev >= 50 else 'cross', 'balance': 100 * (base + 20 * tick) * unit * (3 if prog2 else 1)}
     case = {'cfg': cfg, 'routes': [{'symbol': 'BTC-USDT', 'timeframe': tf, 'spec': prog}], 'candles': {'BTC-USDT': rows.tolist()}, 'fast': fast, 'observe': 0}
     if prog2 is not None:
         mw = [(-g, -d, wd, wu) for (g, d, wu, wd) in w]
@@ -86,6 +87,12 @@ def cases(ctx):
             for pname, prog in P:
                 for w in progs.words(sigma, n):
                     yield (w, pname, prog, kind, fee, lev, fast, emb)
+    # isolated margin with high leverage: liquidations, and stops that fill beyond the bankruptcy price
+    P = [p for p in programs(emb[1], emb[2], 'futures') if p[0] != 'flip-at-2']
+    for lev, fast in ((100, False), (50, True)):
+        for pname, prog in P:
+            for w in progs.words(sigma, n - 1):
+                yield (w, pname, prog, 'futures', 0.001, lev, fast, emb)
     # two symbols on one wallet: events are per symbol, the wallet identity spans both
     P = [p for p in programs(emb[1], emb[2], 'futures') if p[0] != 'flip-at-2']
     for fast in (False, True):
